@@ -16,6 +16,13 @@ impl BackReference {
     }
 }
 
+#[cfg(regexml_verif)]
+impl BackReference {
+    pub(crate) fn verif_group_nr(&self) -> usize {
+        self.group_nr
+    }
+}
+
 impl OperationControl for BackReference {
     fn matches_empty_string(&self) -> u32 {
         // no information available
